@@ -9,6 +9,7 @@ package c15
 
 import (
 	"bufio"
+	"context"
 	"encoding/json"
 	"encoding/xml"
 	"errors"
@@ -161,7 +162,7 @@ func (s *srcWT) WriteTo(w io.Writer) (int64, error) {
 		off += c
 	}
 	if s.sc.Term == "err" {
-		return n, streamkit.ErrScript
+		return n, streamkit.KindErr(s.sc.ErrKind)
 	}
 	return n, nil
 }
@@ -302,6 +303,8 @@ func concretise(m M) M {
 	return d
 }
 
+var errKinds = []string{"custom", "ueof", "ueofwrap", "eofwrap", "closedpipe", "canceled"}
+
 var bigSizes = []int{65, 511, 512, 513, 4095, 4096, 4097, 32767, 32768, 32769, 100000, 1 << 20}
 
 // genScript rebuilds the (possibly huge) script of a seeded case from its generator record.
@@ -350,6 +353,10 @@ func randomCase(rng *rand.Rand, tier string) M {
 		sc = genScript(g)
 	}
 	codec := []string{"bytes", "bytes", "text"}[rng.Intn(3)]
+	ekind := "none"
+	if g["term"] == "err" {
+		ekind = errKinds[rng.Intn(len(errKinds))]
+	}
 	wacc := -1
 	if rng.Intn(3) == 0 {
 		wacc = rng.Intn(len(sc.Content) + 2)
@@ -363,7 +370,7 @@ func randomCase(rng *rand.Rand, tier string) M {
 		if dst != "writer" {
 			wacc = -1
 		}
-		cfg := M{"codec": codec, "content": streamkit.Blob(sc.Content), "term": sc.Term,
+		cfg := M{"codec": codec, "content": streamkit.Blob(sc.Content), "term": sc.Term, "ekind": ekind,
 			"rkind": []string{"reader", "readcloser"}[rng.Intn(2)], "closeOpt": codec == "bytes" && rng.Intn(2) == 0,
 			"dst": dst, "pre": rng.Intn(2) == 0 && (dst[0] == 'p' || dst[0] == 'a'), "wacc": wacc, "uerr": false}
 		return M{"kind": "consume", "cfg": cfg, "origin": "rand", "gen": g}
@@ -385,7 +392,10 @@ func randomCase(rng *rand.Rand, tier string) M {
 	if wacc > len(sc.Content)+1 {
 		wacc = len(sc.Content) + 1
 	}
-	cfg := M{"codec": codec, "content": streamkit.Blob(sc.Content), "term": sc.Term, "src": src,
+	if sc.Term != "err" {
+		ekind = "none"
+	}
+	cfg := M{"codec": codec, "content": streamkit.Blob(sc.Content), "term": sc.Term, "ekind": ekind, "src": src,
 		"wkind": []string{"writer", "writecloser"}[rng.Intn(2)], "closeOpt": codec == "bytes" && rng.Intn(2) == 0,
 		"wacc": wacc, "merr": false}
 	return M{"kind": "produce", "cfg": cfg, "origin": "rand", "gen": g}
@@ -397,7 +407,8 @@ func errClass(err error) string {
 	switch {
 	case err == nil:
 		return "none"
-	case errors.Is(err, streamkit.ErrScript):
+	case errors.Is(err, streamkit.ErrScript), errors.Is(err, io.ErrUnexpectedEOF), errors.Is(err, io.EOF),
+		errors.Is(err, io.ErrClosedPipe), errors.Is(err, context.Canceled):
 		return "rerr"
 	case errors.Is(err, streamkit.ErrWrite):
 		return "werr"
@@ -427,10 +438,14 @@ func execute(c *drv.Ctx, d M) bool {
 }
 
 func scriptOf(d, cfg M) streamkit.Script {
+	var sc streamkit.Script
 	if g, ok := d["gen"]; ok {
-		return genScript(drv.Map(g))
+		sc = genScript(drv.Map(g))
+	} else {
+		sc = streamkit.ScriptFromJSON(cfg["sc"])
 	}
-	return streamkit.ScriptFromJSON(cfg["sc"])
+	sc.ErrKind = drv.Str(cfg["ekind"]) // which error a failing stream returns
+	return sc
 }
 
 func execConsume(c *drv.Ctx, d, cfg M) bool {
@@ -861,6 +876,7 @@ func feedScript(doc []byte, r M) streamkit.Script {
 	sc := streamkit.Script{Content: doc, Term: "eof"}
 	if drv.Bool(r["cut"]) {
 		sc.Term = "err"
+		sc.ErrKind = drv.Str(r["ekind"])
 	}
 	chunk := drv.Int(r["chunk"])
 	if chunk <= 0 {
